@@ -95,7 +95,15 @@ static opnd_t pg_reg (int vt, int r) { opnd_t o; memset (&o, 0, sizeof o); o.kin
 static opnd_t pg_imm_i (int64_t v) { opnd_t o; memset (&o, 0, sizeof o); o.kind = K_IMM; o.vt = V_I; o.imm.i = v; return o; }
 static opnd_t pg_imm_d (double v) { opnd_t o; memset (&o, 0, sizeof o); o.kind = K_IMM; o.vt = V_D; o.imm.d = v; return o; }
 static int pg_nregs (int vt) { return vt == V_I ? PG_NI : vt == V_D ? PG_ND : vt == V_F ? PG_NF : PG_NL; }
-static opnd_t pg_rnd_reg (pgen_t *g, int vt) { return pg_reg (vt, (int) vp_below (&g->r, vt == V_I ? PG_NI - 1 : pg_nregs (vt))); } /* i9 may hold an address: never a source */
+#define PG_ARGREG 100 /* opnd_t.reg >= PG_ARGREG: the function's integer parameter a<reg-100> read in place (only ever a source) */
+static opnd_t pg_rnd_reg (pgen_t *g, int vt) { /* i9 may hold an address: never a source */
+  if (vt == V_I && vp_chance (&g->r, 18)) {
+    const func_t *f = &g->p->f[g->fidx]; int cand[PG_MAXARGS], nc = 0;
+    for (int k = 1; k < f->nparams; k++) if (f->ptype[k] != MIR_T_D && f->ptype[k] != MIR_T_P) cand[nc++] = k;
+    if (nc > 0) return pg_reg (V_I, PG_ARGREG + cand[vp_below (&g->r, (uint64_t) nc)]);
+  }
+  return pg_reg (vt, (int) vp_below (&g->r, vt == V_I ? PG_NI - 1 : pg_nregs (vt)));
+}
 static opnd_t pg_gen_reg (pgen_t *g) { return pg_reg (V_I, (int) vp_below (&g->r, PG_GEN)); }
 
 static node_t **pg_tail;
@@ -182,25 +190,30 @@ static void pg_fp_stmt (pgen_t *g) {
   static const MIR_insn_code_t dc[] = {MIR_DEQ, MIR_DNE, MIR_DLT, MIR_DLE, MIR_DGT, MIR_DGE};
   int w = (int) vp_below (&g->r, 100);
   g->p->n_fp++;
-  if (w < 40) {
+  if (w < 35) {
     opnd_t d = pg_rnd_reg (g, V_D);
     pg_emit (pg_op (db[vp_below (&g->r, 4)], d, pg_src (g, V_D), pg_src (g, V_D)));
-  } else if (w < 55) pg_emit (pg_op (dc[vp_below (&g->r, 6)], pg_reg (V_I, (int) vp_below (&g->r, PG_GEN)), pg_src (g, V_D), pg_src (g, V_D)));
-  else if (w < 68) { /* int -> double of a bounded value */
+  } else if (w < 53) pg_emit (pg_op (dc[vp_below (&g->r, 6)], pg_reg (V_I, (int) vp_below (&g->r, PG_GEN)), pg_src (g, V_D), pg_src (g, V_D)));
+  else if (w < 60) { /* any 64-bit value: exact or rounded to nearest; its sign and size are looked at straight away */
+    opnd_t d = pg_rnd_reg (g, V_D), x = pg_rnd_reg (g, V_I);
+    pg_emit (pg_op (vp_chance (&g->r, 50) ? MIR_I2D : MIR_UI2D, d, x, x));
+    if (vp_chance (&g->r, 70)) pg_emit (pg_op (dc[vp_below (&g->r, 6)], pg_gen_reg (g), d, vp_chance (&g->r, 50) ? pg_imm_d (0.0) : pg_imm_d (9223372036854775808.0)));
+  }
+  else if (w < 66) { /* int -> double of a bounded value */
     opnd_t t = pg_reg (V_I, PG_NI - 2);
     pg_emit (pg_op (MIR_AND, t, pg_rnd_reg (g, V_I), pg_imm_i (0xfffff)));
     pg_emit (pg_op (vp_chance (&g->r, 50) ? MIR_I2D : MIR_UI2D, pg_rnd_reg (g, V_D), t, t));
-  } else if (w < 80) { /* guarded double -> int */
+  } else if (w < 78) { /* guarded double -> int */
     node_t *n = pg_new (N_FPGUARD);
     if (n) { n->a = pg_rnd_reg (g, V_D); n->d = pg_reg (V_I, (int) vp_below (&g->r, PG_GEN)); n->creg = PG_NI - 2; pg_emit (n); }
-  } else if (w < 88 && !(g->feat & PF_NO_LD)) { /* through float and long double and back */
+  } else if (w < 86 && !(g->feat & PF_NO_LD)) { /* through float and long double and back */
     opnd_t f = pg_rnd_reg (g, V_F), l = pg_rnd_reg (g, V_L), d = pg_rnd_reg (g, V_D);
     pg_emit (pg_op (MIR_D2F, f, pg_rnd_reg (g, V_D), f));
     pg_emit (pg_op (MIR_FADD, f, f, f));
     pg_emit (pg_op (MIR_F2LD, l, f, f));
     pg_emit (pg_op (MIR_LDMUL, l, l, l));
     pg_emit (pg_op (MIR_LD2D, d, l, l));
-  } else if (w < 94) pg_emit (pg_op (MIR_DNEG, pg_rnd_reg (g, V_D), pg_src (g, V_D), pg_src (g, V_D)));
+  } else if (w < 90) pg_emit (pg_op (MIR_DNEG, pg_rnd_reg (g, V_D), pg_src (g, V_D), pg_src (g, V_D)));
   else { /* store a double to observable memory only if it is not a NaN */
     node_t *n = pg_new (N_IF);
     opnd_t x = pg_rnd_reg (g, V_D);
@@ -379,7 +392,8 @@ static void P (ptxt_t *t, const char *fmt, ...) {
 static const char *pg_tn (MIR_type_t t) { static const char *n[] = {"i8", "u8", "i16", "u16", "i32", "u32", "i64", "u64", "f", "d", "ld", "p"}; return n[t]; }
 static const char pg_rc[] = {'i', 'd', 'f', 'l'};
 static void pg_popnd (ptxt_t *t, const opnd_t *o) {
-  if (o->kind == K_REG) P (t, "%c%d", pg_rc[o->vt], o->reg);
+  if (o->kind == K_REG && o->vt == V_I && o->reg >= PG_ARGREG) P (t, "a%d", o->reg - PG_ARGREG);
+  else if (o->kind == K_REG) P (t, "%c%d", pg_rc[o->vt], o->reg);
   else if (o->kind == K_IMM) { if (o->vt == V_I) P (t, "%lld", (long long) o->imm.i); else P (t, "%.17e", o->imm.d); }
   else if (o->idx >= 0) P (t, "%s:%lld(p%d, i%d, %d)", pg_tn (o->mt), (long long) o->disp, o->base, o->idx, o->scale);
   else P (t, "%s:%lld(p%d)", pg_tn (o->mt), (long long) o->disp, o->base);
@@ -547,7 +561,7 @@ typedef struct {
   rm_log_t *log; int nlog;
   long steps; int overflow;
 } rm_t;
-typedef struct { int64_t i[PG_NI]; double d[PG_ND]; float f[PG_NF]; long double l[PG_NL]; uint8_t *ptr[PG_NP]; int returned; int64_t ri; double rd; uint8_t *allocas[2]; } rm_env_t;
+typedef struct { int64_t a[PG_MAXARGS]; int64_t i[PG_NI]; double d[PG_ND]; float f[PG_NF]; long double l[PG_NL]; uint8_t *ptr[PG_NP]; int returned; int64_t ri; double rd; uint8_t *allocas[2]; } rm_env_t;
 
 static int64_t rm_ext_log (rm_t *rm, int64_t tag, int64_t a, int64_t b) {
   if (rm->nlog < RM_MAXLOG) { rm->log[rm->nlog].tag = tag; rm->log[rm->nlog].a = a; rm->log[rm->nlog].b = b; }
@@ -560,7 +574,7 @@ static uint8_t *rm_addr (rm_env_t *e, const opnd_t *o) {
   if (off < 0 || off + (int64_t) sem_type_size (o->mt) > PG_BUF) { rm_oob = 1; off = 0; }
   return e->ptr[o->base] + off;
 }
-static int64_t rm_geti (rm_env_t *e, const opnd_t *o) { return o->kind == K_REG ? e->i[o->reg] : o->kind == K_IMM ? o->imm.i : sem_load_int (o->mt, rm_addr (e, o)); }
+static int64_t rm_geti (rm_env_t *e, const opnd_t *o) { return o->kind == K_REG ? (o->reg >= PG_ARGREG ? e->a[o->reg - PG_ARGREG] : e->i[o->reg]) : o->kind == K_IMM ? o->imm.i : sem_load_int (o->mt, rm_addr (e, o)); }
 static void rm_seti (rm_env_t *e, const opnd_t *o, int64_t v) { if (o->kind == K_REG) e->i[o->reg] = v; else sem_store_int (o->mt, rm_addr (e, o), v); }
 static double rm_getd (rm_env_t *e, const opnd_t *o) { if (o->kind == K_REG) return e->d[o->reg]; if (o->kind == K_IMM) return o->imm.d; double v; memcpy (&v, rm_addr (e, o), 8); return v; }
 static void rm_setd (rm_env_t *e, const opnd_t *o, double v) { if (o->kind == K_REG) e->d[o->reg] = v; else memcpy (rm_addr (e, o), &v, 8); }
@@ -656,7 +670,7 @@ static void rm_call (rm_t *rm, int fi, const int64_t *ia, const double *da, uint
   e->ptr[0] = pa[0]; e->ptr[1] = rm->gdata; e->ptr[2] = pa[0]; e->ptr[3] = pa[0];
   if (f->frame_first) e->ptr[2] = e->allocas[0] = calloc (1, PG_BUF + 16);
   int ai = 0, di = 0;
-  for (int k = 1; k < f->nparams; k++) { if (f->ptype[k] == MIR_T_D) { if (di < PG_ND) e->d[di++] = da[k]; } else if (ai < PG_NI) e->i[ai++] = ia[k]; }
+  for (int k = 1; k < f->nparams; k++) { if (f->ptype[k] == MIR_T_D) { if (di < PG_ND) e->d[di++] = da[k]; } else { e->a[k] = ia[k]; if (ai < PG_NI) e->i[ai++] = ia[k]; } }
   for (; ai < PG_NI; ai++) { if (rm->p->feat & PF_CONST_INIT) e->i[ai] = ai * 1000003 + 7 * fi; else e->i[ai] = sem_load_int (MIR_T_I64, rm->gdata + 8 * ai + fi); }
   for (; di < PG_ND; di++) e->d[di] = di + fi + 0.5;
   for (int k = 0; k < PG_NF; k++) e->f[k] = k + 1 + 0.25f;
